@@ -301,6 +301,14 @@ def run(ctx):
     pred_fail = chain_fail + pred_fail
     corr_broken = corr_broken or chain_broken
 
+    # ---- "current block producer": election snapshots across forks, boundaries and restarts
+    # (g5's election engine: real dpos.NewStatus + bp.Cluster/Snapshots + system.GetRankers)
+    import c08election
+    efind = c08election.run_election_family(ctx, include_f23=False)
+    ctx.cov["election_family_findings"] = len(efind)
+    for f in efind:
+        pred_fail.append((f["key"], f["what"], f["replay"]))
+
     # ---- decide
     seen = set()
     for f in pred_fail:
